@@ -15,19 +15,20 @@ open Strengths Strengths.Gen
 /-- the constants the hand-written model hard-codes are the ones in the source: the two separators of
 `_fromstring`, its length tests, the accumulation of repeated labels, the text pieces of `to_string`,
 which dictionaries `order`/`rorder`/`k*_units_dimensions` sum over, what `split()` passes on, the ratio
-taken by `equilibrium_constant`, and the label rules -/
+taken by `equilibrium_constant`, and the label rules.  Statement text is compared with the function's local variables
+renamed `v0, v1, …` in order of first binding, so renaming a local is not a change. -/
 theorem source_constants :
     eqSplitSeps = ["+", "->"] ∧
-    eqLenTests = ["len(tokens)==1", "len(token)==1", "len(token)==2", "len(sides)!=2"] ∧
-    eqAccumulate = ("d[label]=coef", "d[label]+=coef") ∧
-    eqCoefAssigns = ["coef,label=1,\"\"", "coef=int(token[0].strip())"] ∧
+    eqLenTests = ["len(v3)==1", "len(v4)==1", "len(v4)==2", "len(v7)!=2"] ∧
+    eqAccumulate = ("v2[v6]=v5", "v2[v6]+=v5") ∧
+    eqCoefAssigns = ["v5,v6=1,\"\"", "v5=int(v4[0].strip())"] ∧
     toStringConsts = ["", "+ ", " ", " ", "-> "] ∧
-    toStringTests = ["d[s]!=0", "notfirst", "d[s]!=1"] ∧
+    toStringTests = ["v0[v3]!=0", "notv2", "v0[v3]!=1"] ∧
     kfCountsOver = "_substrates" ∧ krCountsOver = "_products" ∧
     orderOver = "substrates" ∧ rorderOver = "products" ∧
-    kRatios = ["self.kf/self.kr", "vf/vr"] ∧ kZeroTests = ["self.kr.value==0", "vr.value==0"] ∧
-    labelRaiseConds = ["cinstring.whitespace", "cin\"+\"", "c.count(\"->\")>0"] ∧
-    validityRaiseConds = ["sd.get(s.label,None)!=None", "rd.get(r.label,None)!=None", "rsnotinsl", "rsnotinsl"] := by
+    kRatios = ["self.kf/self.kr", "v3/v4"] ∧ kZeroTests = ["self.kr.value==0", "v4.value==0"] ∧
+    labelRaiseConds = ["v1instring.whitespace", "v1in\"+\"", "v1.count(\"->\")>0"] ∧
+    validityRaiseConds = ["v0.get(v1.label,None)!=None", "v2.get(v3.label,None)!=None", "v6notinv4", "v6notinv4"] := by
   decide +kernel
 
 /-- `split()` builds (substrates → products, kf, kr = 0) and (products → substrates, kr as kf, kr = 0),
